@@ -611,9 +611,26 @@ func (r *ProcRegistry) FailNext(id string) {
 	r.mu.Unlock()
 }
 
-func (r *ProcRegistry) NewProcessor(_ context.Context, _ string, id string, _ egress.Policy) (sdk.Processor, error) {
+// MissingProcPlugin is a plugin name the registry cannot dispense (C13: a live reconfiguration or
+// a start whose runnable cannot be BUILT).
+const MissingProcPlugin = "missing-proc"
+
+// ErrProcMissing is what the registry answers for MissingProcPlugin.
+var ErrProcMissing = errors.New("fake processor registry: plugin not found")
+
+// Count is the number of plugins dispensed for processor id since Arm.
+func (r *ProcRegistry) Count(id string) int {
 	r.mu.Lock()
 	defer r.mu.Unlock()
+	return r.count[id]
+}
+
+func (r *ProcRegistry) NewProcessor(_ context.Context, plugin string, id string, _ egress.Policy) (sdk.Processor, error) {
+	r.mu.Lock()
+	defer r.mu.Unlock()
+	if plugin == MissingProcPlugin {
+		return nil, ErrProcMissing
+	}
 	if r.quiet {
 		return &quietProc{}, nil
 	}
